@@ -23,7 +23,8 @@ script = {
 }
 case = {
   'stack': 'wsgi' | 'asgi',
-  'kind': 'route' | 'field' | 'suffix' | 'options' | 'nomethod' | 'falsy' | 'sink' | 'unrouted',
+  'kind': 'route' | 'field' | 'suffix' | 'options' | 'nomethod' | 'falsy' | 'sink' | 'unrouted'
+          | 'm:<METHOD>' | 'ms:<METHOD>'   (another HTTP / WebDAV / custom method, plain or suffixed route),
   'actions': {site: action},     site: 'M<i>.req' 'M<i>.rsrc' 'M<i>.resp' 'B<id>' 'A<id>' 'R' 'S'
   'hactions': [action, ...],     action of the k-th invocation of the custom error handler (cyclic)
 }
@@ -41,8 +42,32 @@ Trace events (tuples), identical in shape to what the generated application obje
 
 RAISING = ('http_error', 'http_status', 'app_handled', 'app_unhandled')
 
+# Methods a resource may implement (docs/api/routing.rst: RFC 7231 + PATCH, the WebDAV set, and
+# any method named in FALCON_CUSTOM_HTTP_METHODS); written down here from the RFCs, not read from falcon.
+HTTP_EXTRA = ('DELETE', 'PATCH', 'POST', 'HEAD', 'TRACE', 'CONNECT')          # PUT is left unimplemented (405)
+WEBDAV = ('CHECKIN', 'CHECKOUT', 'COPY', 'LOCK', 'MKCOL', 'MOVE', 'PROPFIND', 'PROPPATCH', 'REPORT',
+          'UNCHECKIN', 'UNLOCK', 'UPDATE', 'VERSION-CONTROL')
+CUSTOM = ('FOO', 'BAR')
+SUFFIXED_EXTRA = ('REPORT', 'DELETE', 'FOO')                                  # also implemented as on_<m>_items
+
+
+def responder_name(method, suffix=None):
+    return 'on_' + method.lower() + ('_' + suffix if suffix else '')
+
+
+def all_responders():
+    names = ['on_get', 'on_get_f', 'on_get_items']
+    names += [responder_name(m) for m in HTTP_EXTRA + WEBDAV + CUSTOM]
+    names += [responder_name(m, 'items') for m in SUFFIXED_EXTRA]
+    return names
+
+
+def method_class(method):
+    return 'webdav' if method in WEBDAV else 'custom' if method in CUSTOM else 'http'
+
+
 # request kind -> (route matched?, resource tag, route fields, responder class)
-KINDS = {
+_KINDS = {
     'route':    (True, 'res', (), 'on_get'),
     'field':    (True, 'res', (('x', '7'),), 'on_get_f'),
     'suffix':   (True, 'res', (), 'on_get_items'),
@@ -52,6 +77,27 @@ KINDS = {
     'sink':     (False, None, (('tail', 'abc'),), 'sink'),
     'unrouted': (False, None, (), '404'),
 }
+
+
+def kind_info(kind):
+    """'m:<METHOD>' = that method on the plain route, 'ms:<METHOD>' = on the suffixed route."""
+    if kind.startswith('m:'):
+        return (True, 'res', (), responder_name(kind[2:]))
+    if kind.startswith('ms:'):
+        return (True, 'res', (), responder_name(kind[3:], 'items'))
+    return _KINDS[kind]
+
+
+def kind_request(kind):
+    """-> (HTTP method, path)"""
+    if kind.startswith('m:'):
+        return kind[2:], '/r'
+    if kind.startswith('ms:'):
+        return kind[3:], '/i'
+    return {'route': ('GET', '/r'), 'field': ('GET', '/f/7'), 'suffix': ('GET', '/i'), 'options': ('OPTIONS', '/r'),
+            'nomethod': ('PUT', '/r'), 'falsy': ('GET', '/z'), 'sink': ('GET', '/s/abc'),
+            'unrouted': ('GET', '/nope')}[kind]
+
 
 STATUS_HANDLER_RET = 290
 
@@ -159,7 +205,7 @@ class _Interp:
         stack = case['stack']
         comps = effective(script, stack)
         independent = script['independent']
-        matched, rtag, fields, responder = KINDS[case['kind']]
+        matched, rtag, fields, responder = kind_info(case['kind'])
         resource = None
         queued = []          # dependent mode: response methods whose own and earlier request methods did not raise
 
@@ -195,8 +241,13 @@ class _Interp:
         # 4. the responder (with its hooks) only if nothing completed or raised
         if routed and not self.complete and not self.raised:
             self.classes.add('responder.' + responder)
-            if responder in ('on_get', 'on_get_f', 'on_get_items'):
+            if responder.startswith('on_'):
                 hooks = responder_hooks(script, responder)
+                if case['kind'].startswith('m'):
+                    mc = method_class(case['kind'].split(':')[1])
+                    self.classes.add('method.' + mc)
+                    if script.get('hooks_class'):
+                        self.classes.add('classhook.' + mc + ('.suffixed' if case['kind'].startswith('ms:') else ''))
                 if responder in script.get('inherit', ()):
                     for kind, _ in script.get('hooks_class', ()):
                         self.classes.add('inherit.class_' + kind)
@@ -269,22 +320,35 @@ def interpret(script, case):
 
 # ---------------------------------------------------------------- lifespan
 
-def interpret_lifespan(script, lactions):
+def interpret_lifespan(script, lactions, late=None):
     """lactions: {'M<i>.startup'|'M<i>.shutdown': 'ret'|'raise'}.
+    late: None, or {'n': k, 'when': 'between'} / {'n': k, 'when': 'startup', 'by': i}: the last k components are
+    registered with App.add_middleware() only after the lifespan scope was opened - between startup and
+    shutdown, or from inside component i's process_startup.  App.add_middleware: "invoked, in order, as if
+    they had been appended to the original middleware list".
     -> (expected handler trace, expected sequence of event types sent to the server)
     Startup handlers in registration order; shutdown handlers in reverse; the first failure is
     reported (lifespan.*.failed) and stops the sequence.  A server does not ask a failed
     application to shut down, so after startup.failed nothing more happens."""
     trace, sent = [], []
     comps = script['comps']
-    for i, c in enumerate(comps):
+    n = len(comps)
+    present = n - (late['n'] if late else 0)       # components registered so far
+    i = 0
+    while i < present:
+        c = comps[i]
         if c.get('startup'):
             trace.append(('startup', i))
+            if late and late['when'] == 'startup' and late['by'] == i:
+                present = n                          # appended: they follow in the same order
             if lactions.get('M%d.startup' % i) == 'raise':
                 sent.append('lifespan.startup.failed')
                 return trace, sent
+        i += 1
     sent.append('lifespan.startup.complete')
-    for i in reversed(range(len(comps))):
+    if late and late['when'] == 'between':
+        present = n                                  # too late for startup, in time for shutdown
+    for i in reversed(range(present)):
         if comps[i].get('shutdown'):
             trace.append(('shutdown', i))
             if lactions.get('M%d.shutdown' % i) == 'raise':
